@@ -354,7 +354,7 @@ pub fn long_series() -> Vec<Series> {
 pub fn run(rep: &mut Report) {
     let q = rep.quick();
     let leap = LeapTable::load().expect("leap").0;
-    rep.rule = "every series of the product start (per scale: zero, before zero, century boundaries of the count, before/at/after three leap seconds) x span {0,1,2,5,6,7,10,59,60,61,63} units (and +-1 ns) x step {1,2,3,5,7} units x unit {ns, s, day (+ us, min, week thorough)} x {inclusive, exclusive} x end given in the start's scale or another one; each real iterator is stepped with next() to exhaustion and once more, then driven again by collect(), by a for loop and by by_ref().take(j) + the rest, and every yielded item is compared with start + k*step computed from the start. Medium series (five non-round steps x every item count 1..512 (thorough 2048) x spans -1..+3 ns around a whole number of steps). Huge series (2^53 .. 2^80 items, nanosecond to microsecond steps over centuries): the first six items and take(3).collect(). Long-span series (steps of 400 days .. one century, 2..120 steps, spans beyond the i64 nanosecond range) in both tiers; long series (millions of items) in the thorough tier. Non-trivial = span a whole multiple of the step, end in another scale, or start before the reference.".into();
+    rep.rule = "every series of the product start (per scale: zero, before zero, century boundaries of the count, before/at/after three leap seconds) x span {0,1,2,5,6,7,10,59,60,61,63} units (and +-1 ns) x step {1,2,3,5,7} units x unit {ns, s, day (+ us, min, week thorough)} x {inclusive, exclusive} x end given in the start's scale or another one; each real iterator is stepped with next() to exhaustion and once more, then driven again by collect(), by a for loop, by by_ref().take(j) + the rest and (series of up to 4096 items) by nth / skip / step_by / count / last / clone on a fresh and on a partially consumed iterator, and every yielded item is compared with start + k*step computed from the start. Medium series (five non-round steps x every item count 1..512 (thorough 2048) x spans -1..+3 ns around a whole number of steps). Huge series (2^53 .. 2^80 items, nanosecond to microsecond steps over centuries): the first six items and take(3).collect(). Long-span series (steps of 400 days .. one century, 2..120 steps, spans beyond the i64 nanosecond range) in both tiers; long series (millions of items) in the thorough tier. Non-trivial = span a whole multiple of the step, end in another scale, or start before the reference.".into();
     rep.assumptions = vec!["end - start is measured in the end's time scale (left operand, C04); series whose start has no count in the end's scale (inside an inserted UTC interval) are don't-cares".into()];
     let sp = space(q);
     rep.bound("series", sp.len() as u64);
